@@ -81,6 +81,7 @@ def explore(am, ref, reps, with_end=False, max_states=4000, want_witnesses=0):
         return out
     syms = list(reps) + ([END] if with_end else [])
     has_foreach = any(st[0] == "foreach" for st in U.walk(ref.prog))
+    nested_foreach = any(st[0] == "foreach" and any(x[0] == "foreach" for x in U.walk(tuple(st[1]))) for st in U.walk(ref.prog))
     init = (am.key(cfg0), r0, tuple(S0))
     seen = {init: b""}
     front = deque([init])
@@ -108,6 +109,8 @@ def explore(am, ref, reps, with_end=False, max_states=4000, want_witnesses=0):
             alts = [dict()]
             if has_foreach:
                 alts.append(dict(foreach_first=True))
+            if nested_foreach:
+                alts += [dict(a, each_outer_first=True) for a in list(alts)]
             alts += [dict(a, rend_done=True) for a in list(alts)]
             try:
                 r = ref.run(rcfg, c)
